@@ -151,7 +151,7 @@ def group_runs(g, tier):
                 W('lock(mem|phys)', 'edges', lts='deep', names='prefix', frac=0.05 if q else 1.0), W('lock(phys|mem)', 'random', walks=10 * k, length=40)]
     if g == 'hostiledir':
         return [dict(kind='hostiledir', cfgs='phys;alt(zr,phys);ovl(phys,mem);ovl(mem,phys);alt(zr/zs,ovl(phys,phys))', tspec='Trace_Confine'),
-                dict(kind='rootops', cfgs='mem;phys;alt(zr,mem);alt(zr/zs,phys);ovl(mem,mem);ovl(phys,mem);ovl(mem,phys);ovl(mem,mem,mem);alt(zr,ovl(mem,mem));ovl(ovl(mem,mem),mem);ovlsh(2);ovlsub(2)', tspec='Trace_Confine'),
+                dict(kind='rootops', cfgs='mem;phys;alt(zr,mem);alt(zr/zs,phys);alt(zr,alt(zs,mem));alt(zr,phys);ovl(mem,mem);ovl(phys,mem);ovl(mem,phys);ovl(mem,mem,mem);alt(zr,ovl(mem,mem));ovl(ovl(mem,mem),mem);ovlsh(2);ovlsub(2)', tspec='Trace_Confine'),
                 dict(kind='ahostile', cfgs='mem;phys;alt(zr,mem);alt(zr,phys);ovl(mem,mem);ovl(phys,mem);ovl(mem,phys);ovl(mem,mem,mem);alt(zr,ovl(mem,mem));ovlsh(2);ovlsub(2)', tspec='Trace_Confine')]
     if g == 'times':
         T = 'set_time,append_file,create_file,create_dir,remove_file'
@@ -435,7 +435,7 @@ PROPS = {
     'C05': dict(groups=['tree', 'alt', 'ovl']),
     'C12': dict(groups=['tree', 'alt', 'ovl', 'join', 'faults', 'hostiledir']),
     'C13': dict(groups=['tree', 'alt', 'ovl', 'join', 'handles', 'hostile', 'hostiledir', 'emb', 'async']),
-    'C07': dict(groups=['alt', 'hostile']),
+    'C07': dict(groups=['alt', 'hostile', 'hostiledir']),
     'C08': dict(groups=['ovl', 'times', 'faults']),
     'C09': dict(groups=['ovl']),
     'C06': dict(groups=['join']),
